@@ -553,8 +553,14 @@ impl TaskEmitter {
         };
         *seq += 1;
 
+        #[cfg(rip_verif)]
+        rip_kernel::verif::point("emit.publish");
         let _ = self.sender.send(event.clone());
+        #[cfg(rip_verif)]
+        rip_kernel::verif::point("emit.lock");
         let mut guard = self.events.lock().await;
+        #[cfg(rip_verif)]
+        rip_kernel::verif::point("emit.record");
         guard.push(event.clone());
         let _ = self.event_log.append(&event);
     }
@@ -688,5 +694,34 @@ pub mod verif_hooks {
 
     pub fn new_artifact_id() -> String {
         logs::new_artifact_id()
+    }
+
+    /// A task handle registered with the router, for emitting frames through the real emitter.
+    pub struct VerifTask {
+        handle: TaskHandle,
+        emitter: TaskEmitter,
+    }
+
+    impl VerifTask {
+        pub(crate) fn new(handle: TaskHandle, event_log: Arc<EventLog>) -> Self {
+            let emitter = TaskEmitter::new(&handle, event_log);
+            Self { handle, emitter }
+        }
+
+        pub fn task_id(&self) -> String {
+            self.handle.task_id.clone()
+        }
+
+        /// `TaskEmitter::emit` of one output frame
+        pub async fn emit_delta(&self, chunk: &str) {
+            self.emitter
+                .emit(EventKind::ToolTaskOutputDelta {
+                    task_id: self.handle.task_id.clone(),
+                    stream: rip_kernel::ToolTaskStream::Stdout,
+                    chunk: chunk.to_string(),
+                    artifacts: None,
+                })
+                .await;
+        }
     }
 }
